@@ -1,3 +1,6 @@
+mod c57;
+mod util;
+
 fn main() {
-    vmon::run_main(&[]);
+    vmon::run_main(&[("C57", c57::run)]);
 }
